@@ -363,7 +363,7 @@ func runC11(e *env) {
 			}
 		}
 		nameOf := make([]map[string]string, len(msgs))
-		var hasEmpty, hasBad, hasNested, hasLook, hasParens, hasEmptyCase, hasBadName, incoherent, nontrivial bool
+		var hasEmpty, hasBad, hasNested, hasLook, hasParens, hasEmptyCase, hasBadName, hasDescNL, incoherent, nontrivial bool
 		bad := ""
 		for _, m := range msgs {
 			n := nodes[m.Idx]
@@ -388,6 +388,7 @@ func runC11(e *env) {
 			hasBad = hasBad || m.has("badplural")
 			hasNested = hasNested || m.has("nested")
 			hasParens = hasParens || m.has("parens")
+			hasDescNL = hasDescNL || m.has("descnl")
 			hasLook = hasLook || m.lookalike()
 			for _, nm := range no {
 				if !c11NameRe.MatchString(nm) {
@@ -505,6 +506,20 @@ func runC11(e *env) {
 				}
 			}
 			entries = append(entries, pe)
+		}
+		// every entry must carry its id= reference: pomsg.newBundle refuses the whole catalogue otherwise
+		noID := false
+		for _, pe := range entries {
+			noID = noID || pe.id == 0
+		}
+		if noID {
+			key := ""
+			if hasDescNL {
+				key = "desc-newline"
+			}
+			c11Fail(e, hx.Violation{Kind: "oracle", What: "the POT written by xgettext-soy has an entry without an id= reference: pomsg refuses every catalogue made from it", Case: rp, Observed: c11Head(stdout.String(), 600)}, key)
+			os.RemoveAll(dir)
+			continue
 		}
 		want := map[string]int{}
 		for _, m := range msgs {
